@@ -138,7 +138,21 @@ fn tri<T: Sc>(t: &mut Toks, cx: &mut Ctx, to_q: Option<fn(&T) -> Option<Q>>) -> 
             if dom { let an = (0..n).map(|a| (0..n).map(|b| d[a][b].mag64()).sum::<f64>()).fold(0.0, f64::max); let un = u.vec.iter().map(|x| x.mag64()).fold(0.0, f64::max);
                 let mut rn = 0.0f64; for a in 0..n { let mut acc = T::zero(); for b in 0..n { acc += d[a][b] * u[b]; } rn = rn.max((acc - r[a]).mag64()); }
                 cx.meta("dominant", 1);
-                cx.check(rn <= 1e-12 * (an * un + r.vec.iter().map(|x| x.mag64()).fold(0.0, f64::max)) + 1e-300, "diagonally dominant system: backward error too large"); } } }
+                cx.check(rn <= 1e-12 * (an * un + r.vec.iter().map(|x| x.mag64()).fold(0.0, f64::max)) + 1e-300, "diagonally dominant system: backward error too large");
+                // the componentwise bound of theorem C05F.solve_backward_stable_dd evaluated on this run (standard model,
+                // u = 2^-53, 8u for Complex<f64>): |r - T x|_i <= ddConst (|T||x|)_i with ddConst = 12u(1+u)/(1-3u), under row
+                // dominance with the rounding margin (1+u)(|a|+|c|) < (1-u)|b|; plus the rounding of this evaluation, 4u(|T||x|+|r|)_i
+                let uu = f64::EPSILON / 2.0 * if T::TAG == "c" { 8.0 } else { 1.0 };
+                let margin = (0..n).all(|a| (1.0 + uu) * (0..n).filter(|b| *b != a).map(|b| d[a][b].mag64()).sum::<f64>() < (1.0 - uu) * d[a][a].mag64());
+                if margin {
+                    let dd = 12.0 * uu * (1.0 + uu) / (1.0 - 3.0 * uu);
+                    let mut worst = 0.0f64; let mut ok = true;
+                    for a in 0..n { let mut acc = T::zero(); let mut ab = 0.0; for b in 0..n { acc += d[a][b] * u[b]; ab += d[a][b].mag64() * u[b].mag64(); }
+                        let res = (acc - r[a]).mag64(); let bound = dd * ab + 4.04 * uu * (ab + r[a].mag64());
+                        if bound.is_finite() && !(res <= bound) { ok = false; worst = worst.max(res / bound.max(1e-300)); } }
+                    cx.meta("thomas_dd_bound_checked", 1);
+                    cx.check(ok, &format!("row diagonally dominant system: componentwise residual exceeds the backward-stability bound 12u|T||x| of theorem solve_backward_stable_dd by a factor {:e}", worst));
+                } } } }
     }
     out
 }
